@@ -1,3 +1,123 @@
-From Coq Require Import List.
-Theorem C01_placeholder : True. Proof. exact I. Qed.
-Print Assumptions C01_placeholder.
+(* C01 - readers load exactly what the file contains.  Statements only; proofs in Proofs/C01_*.v.
+   tok_float / tok_int / pdg_valid / pdg_charge / usqrt are the oracles of DESIGN.md 4.4 (Python float(),
+   int(), the `particle` package, numpy sqrt): universally quantified functions, no law assumed unless stated. *)
+From Coq Require Import List String ZArith QArith Qabs Bool Arith.
+From SX Require Import Lib.Strs Lib.StrLemmas Gen.GenParticleMap Model.Oscar Model.OscarDoc Model.Jetscape
+  Model.JetscapeDoc Proofs.C01_Oscar Proofs.C01_Columns Proofs.C01_Shapes Proofs.C01_Std Proofs.C01_Jetscape
+  Proofs.C01_Derived Proofs.C01_Example.
+Import ListNotations.
+Local Open Scope string_scope.
+
+(* Oscar2013 / Oscar2013Extended / ASCII, any number of events >= 1, any multiplicities (empty events anywhere):
+   events in file order, particle lines in file order, counts under labels 0.., number of events, format, footers *)
+Theorem C01_oscar_load :
+  forall tok_float tok_int pdg_valid d fmt attrs,
+  wf tok_float tok_int pdg_valid d fmt attrs ->
+  load tok_float tok_int pdg_valid None (render d) SelAll = Ok (expected tok_float tok_int pdg_valid d fmt attrs).
+Proof. exact load_render. Qed.
+Print Assumptions C01_oscar_load.
+
+(* every event's own impact parameter, in file order *)
+Theorem C01_oscar_impacts :
+  forall tok_float tok_int pdg_valid d fmt attrs,
+  wf tok_float tok_int pdg_valid d fmt attrs ->
+  impact_parameters tok_float (expected tok_float tok_int pdg_valid d fmt attrs)
+  = Ok (map (spec_impact tok_float) (d_events d)).
+Proof. exact impacts_render. Qed.
+Print Assumptions C01_oscar_impacts.
+
+(* lines of the documented shapes are recognised as what they are, for any numeric tokens *)
+Theorem C01_row_shape : forall r, forallb numeric r = true -> kind_scan r = SOther /\ kind_loop r = KRow.
+Proof. exact row_kinds. Qed.
+Print Assumptions C01_row_shape.
+
+Theorem C01_header_shape : forall lt ct, numeric lt = true -> numeric ct = true ->
+  let h := ["#"; "event"; lt; "out"; ct] in
+  kind_scan h = SOut /\ kind_loop h = KSkip /\ nth_error h 2 = Some lt /\ nth_error h 4 = Some ct.
+Proof. exact header_kinds. Qed.
+Print Assumptions C01_header_shape.
+
+Theorem C01_footer_shape : forall lt b yn, numeric lt = true -> numeric b = true -> (yn = "yes" \/ yn = "no") -> b <> "" ->
+  let f := smash_footer lt b yn in
+  kind_scan f = SEnd /\ kind_loop f = KEnd /\
+  nth 0 f "" = "#" /\ (2 <= List.length f)%nat /\ mem_str "event" (removelast_s f) = true /\
+  nth_error f 2 = Some lt /\
+  (forall tok_float, impact_of tok_float f = match tok_float b with Some v => Ok v | None => Err ValueError end).
+Proof. exact footer_kinds. Qed.
+Print Assumptions C01_footer_shape.
+
+(* composition for the documented Oscar2013 layout: numeric tokens, parseable rows => loads to its content.
+   dec prints labels/counts; its two laws are the oracle laws of int() on decimal strings *)
+Theorem C01_oscar2013_standard :
+  forall tok_float tok_int pdg_valid (dec : nat -> string),
+  (forall n, numeric (dec n) = true) ->
+  (forall n, tok_int (dec n) = Some (zq (Z.of_nat n))) ->
+  forall h2 h3 l,
+  kind_scan h2 = SOther -> kind_scan h3 = SOther -> l <> [] ->
+  Forall (ok_sevent tok_float tok_int pdg_valid "Oscar2013" []) l ->
+  load tok_float tok_int pdg_valid None (render (std_doc_2013 dec h2 h3 l)) SelAll
+  = Ok (expected tok_float tok_int pdg_valid (std_doc_2013 dec h2 h3 l) "Oscar2013" []).
+Proof. exact std_2013_loads. Qed.
+Print Assumptions C01_oscar2013_standard.
+
+(* column -> slot mapping and casts, on the tables regenerated from Particle.py / OscarLoader.py *)
+Theorem C01_colmap_2013 : assoc "Oscar2013" gen_mapping = Some (doc_mapping "_" doc_cols_2013).
+Proof. exact colmap_2013. Qed.
+Print Assumptions C01_colmap_2013.
+Theorem C01_colmap_extended : assoc "Oscar2013Extended" gen_mapping = Some (doc_mapping "_" doc_cols_ext).
+Proof. exact colmap_ext. Qed.
+Print Assumptions C01_colmap_extended.
+Theorem C01_colmap_ascii :
+  forallb (fun a => match assoc a allfields with Some sc => (fst sc =? slot_of a)%nat | None => false end)
+          (map snd doc_header_names) = true.
+Proof. exact colmap_ascii. Qed.
+Print Assumptions C01_colmap_ascii.
+Theorem C01_header_names : gen_attr_map = doc_header_names.
+Proof. exact header_names. Qed.
+Print Assumptions C01_header_names.
+Theorem C01_casts_real : gen_float_fields = map (fun a => a ++ "_") doc_reals.
+Proof. exact casts_real. Qed.
+Print Assumptions C01_casts_real.
+
+(* each listed column is cast and stored in its slot; no other slot is touched *)
+Theorem C01_fill_slots :
+  forall tok_float tok_int ascii m toks p p',
+  fill tok_float tok_int ascii m toks p = Ok p' ->
+  NoDup (map (fun e => fst (snd e)) m) -> List.length p = 25%nat ->
+  Forall (fun e => (fst (snd e) < 25)%nat) m ->
+  (forall a s c, In (a, (s, c)) m -> (c < List.length toks)%nat ->
+      get_slot s p' = cast tok_float tok_int (if ascii then a ++ "_" else a) (nth c toks "")) /\
+  (forall s, ~ In s (map (fun e => fst (snd e)) (filter (fun e => snd (snd e) <? List.length toks)%nat m)) ->
+      get_slot s p' = get_slot s p) /\
+  List.length p' = 25%nat.
+Proof. exact fill_spec. Qed.
+Print Assumptions C01_fill_slots.
+
+(* JETSCAPE hadron / parton files (defstr = N_hadrons / N_partons), tab- or blank-separated headers *)
+Theorem C01_jetscape_load :
+  forall tok_float tok_int pdg_valid pdg_charge usqrt defstr d s1 s2,
+  jwf tok_float tok_int pdg_valid pdg_charge usqrt defstr d s1 s2 ->
+  jload tok_float tok_int pdg_valid pdg_charge usqrt None (jrender d) defstr SelAll
+  = Ok (jexpected tok_float tok_int pdg_valid pdg_charge usqrt d s1 s2).
+Proof. exact jload_render. Qed.
+Print Assumptions C01_jetscape_load.
+
+(* derived JETSCAPE mass = sqrt(E^2-p^2) (0 for photons/gluons/neutrinos, NaN when |E|<|p|) and
+   charge = PDG charge (x3 when |q|<1), all other slots as read *)
+Theorem C01_jetscape_derived :
+  forall tok_float tok_int pdg_valid pdg_charge usqrt toks p,
+  mk_jet_particle tok_float tok_int pdg_valid pdg_charge usqrt toks = Ok p ->
+  exists p0 E px py pz pdg,
+    mk_particle tok_float tok_int pdg_valid "JETSCAPE" [] toks = Ok p0 /\
+    get_slot 5 p0 = Some E /\ get_slot 6 p0 = Some px /\ get_slot 7 p0 = Some py /\
+    get_slot 8 p0 = Some pz /\ get_slot 9 p0 = Some pdg /\
+    (List.length p0 = 25%nat ->
+       get_slot 4 p = spec_mass usqrt E px py pz pdg /\ get_slot 12 p = spec_charge pdg_valid pdg_charge pdg /\
+       forall s, s <> 4%nat -> s <> 12%nat -> get_slot s p = get_slot s p0).
+Proof. exact jet_derived. Qed.
+Print Assumptions C01_jetscape_derived.
+
+(* non-vacuity: a concrete document (one particle, then an empty event) is well-formed *)
+Theorem C01_example : wf ex_tf ex_ti ex_pv ex_doc "Oscar2013" [].
+Proof. exact example_wf. Qed.
+Print Assumptions C01_example.
